@@ -149,7 +149,7 @@ def run(args):
         return replay(args.replay)
     run = C.Run(PROP, args.tier, args.seed)
     rnd = random.Random(args.seed)
-    info = C.std_coq_phase(run, ["engine"], TARGETS, PROP_FILE)
+    info = C.std_coq_phase(run, ["engine", "shipped", "pandas", "python"], TARGETS, PROP_FILE)
     broken = bool(run.failed_obligations())
     if args.tier == "quick":
         items = streams.all_streams(rnd, "quick", n_fam=None if not broken else 3000)
